@@ -148,7 +148,14 @@ def _corruptions(events):
     def nan(e):
         e["perm"] = [[[-1, -1, -1]] * 3] * 8
 
-    out = [("order", order, x), ("unit", unit, x), ("hemisphere", hemi, x), ("on-edge", onedge, x),
+    def tight(e):
+        e["n2"] = [e["n2hi"][0], e["n2hi"][1], e["n2hi"][2] + 3]
+
+    def planes(e):
+        e["pa"] = [e["ptol"][0] + 1, 0, 0]
+
+    out = [("unit-tight", tight, x), ("on-planes", planes, x),
+           ("order", order, x), ("unit", unit, x), ("hemisphere", hemi, x), ("on-edge", onedge, x),
            ("stable-vs-exact", stable, x), ("order", nan, x)]
     if col is not None:
         def endpoint(e):
@@ -176,6 +183,9 @@ def run(ctx):
         "2*dblError directional error of intersectionExact (comment in intersectionExact), minUpdateDistanceMaxError (edge_distances.go) "
         "for the distance of the result to each edge, points unit to within 2*dblEpsilon (comment in interiorDist) for the hemisphere test",
         "the on-edge relation is not demanded for edges antipodal to within 1e-2 rad (documented limitation of minUpdateDistanceMaxError)",
+        "unit-tight: squared length within 5*dblEpsilon of 1 (points normalised to within 2*dblEpsilon, comment in interiorDist, plus the "
+        "rounding of Norm2); on-planes: |sin| of the angle to the EXACT plane of each edge (r3.PreciseVector cross/dot) <= intersectionError, "
+        "an exact measurement that stays valid for endpoints within an ulp of antipodal where UpdateMinDistance is not usable",
         "all tolerances are absolute (radians / squared chord), none is relative to an edge length; the distance of the result to an edge "
         "shorter than 1e-140 rad is measured to the nearer endpoint because UpdateMinDistance squares |a x b|, which underflows there",
         "collinear float inputs lie on circles that stay exactly planar in float64 (z = 0, x = y and their coordinate permutations); "
